@@ -215,6 +215,8 @@ def scalar_ops(n, K, a, obj, P):
             ops.append(_call(f"update_{n}", "update:kw2", x=4, ys=["list", [6]], **f))
             ops.append(_call(f"transform_{n}", "transform:attrfn", x=FN("inc"), **f))
             ops.append(_call(f"transform_{n}", "transform:ident+attrfn", FN("ident"), x=FN("inc"), **f))
+            # a whole-value transform and an attribute transform that do NOT commute: the documented order is value first
+            ops.append(_call(f"transform_{n}", "transform:pin+attrfn", FN("pin"), x=FN("inc"), **f))
             if P.get("invalid", True):
                 ops.append(_call(f"with_{n}", "with:kw_bad", x="bad", **f))
                 ops.append(_call(f"update_{n}", "update:kw_bad", x="bad", **f))
